@@ -228,6 +228,7 @@ var (
 	ErrDuplicateField = errors.New("duplicate field name")
 	ErrKeyNotSet      = errors.New("replace key is not in the field list")
 	ErrUnknownTable   = errors.New("unknown table")
+	ErrRefused        = errors.New("statement refused whatever the tables hold")
 )
 
 type binding struct {
